@@ -347,7 +347,7 @@ namespace hs
 
         //--- C18: min_block_size mode ---
         bool mbs = false;
-        if (profile == "C18" && (is_pool || is_stack) && !has(sut, ".ST") && !has(sut, ".VB")
+        if (profile == "C18" && (is_pool || is_stack || is_arena) && !is_temp && !has(sut, ".ST") && !has(sut, ".VB")
             && r.chance(1, 3))
         {
             mbs = true;
